@@ -1,4 +1,4 @@
-import BsVerif.Props.C11
+import BsVerif.Lemmas.LifeCore
 /-! Text part of the C11 invariants: every deviation of the live text from the on-disk bytes is an INT3 of a
 registered breakpoint whose saved byte is the on-disk byte. -/
 namespace BsVerif.Life
